@@ -151,15 +151,17 @@ func (o *failOptions) run() error {
 
 	newCanaryERS := canaryERS.DeepCopy()
 
-	newCanaryERS.Status.Conditions = append(
-		newCanaryERS.Status.Conditions,
-		conditions.NewExtendedDaemonSetReplicaSetCondition(
-			v1alpha1.ConditionTypeCanaryFailed,
-			conditions.BoolToCondition(true),
-			metav1.Now(),
-			"Manually failed",
-			"",
-			true),
+	// update the condition in place when it already exists: readers take the first condition of a type,
+	// an appended entry would be shadowed by an earlier one that is not true
+	conditions.UpdateExtendedDaemonSetReplicaSetStatusCondition(
+		&newCanaryERS.Status,
+		metav1.Now(),
+		v1alpha1.ConditionTypeCanaryFailed,
+		conditions.BoolToCondition(true),
+		"Manually failed",
+		"",
+		false,
+		true,
 	)
 	if err = o.client.Status().Update(context.TODO(), newCanaryERS); err != nil {
 		return fmt.Errorf("unable to update ERS status, err: %w", err)
